@@ -640,6 +640,12 @@ func (sf *file) prefetchEntireFile(entireCacheID string, chunks []chunkData, tot
 	}
 	defer w.Close()
 
+	if workerCount <= 0 {
+		// merge_worker_count is unset: without a worker no chunk would be read and a
+		// zero-filled file would be committed to the cache.
+		workerCount = 1
+	}
+
 	// A batch is a run of consecutive whole chunks that fits into the merge buffer. Chunks
 	// never straddle two batches: chunk boundaries needn't be aligned to the buffer size.
 	for start := 0; start < len(chunks); {
